@@ -398,125 +398,123 @@ theorem powerSum_eq_polySum (a : Mat) (cs : List Rat) (k : Nat) : Polynome.power
 
 namespace OpExpr
 
-theorem denote_spec : ∀ (e : OpExpr), e.RegNonneg = true → ∀ o, e.eval = .ok o → o.WF ∧ Mat.Eqv o.dense e.denote
-  | slr s ts, _, o, h => by
+theorem denote_spec : ∀ (e : OpExpr) (o : Op), e.eval = .ok o → o.WF ∧ Mat.Eqv o.dense e.denote
+  | slr s ts, o, h => by
     simp only [eval] at h
     obtain ⟨t, ht, h⟩ := bind_eq_ok h
     have := pure_eq_ok h; subst this
     exact SLR.init_dense ht
-  | regularizer a reg, _, o, h => by
+  | regularizer a reg, o, h => by
     simp only [eval] at h
     obtain ⟨t, ht, h⟩ := bind_eq_ok h
     have := pure_eq_ok h; subst this
     exact regularizer_dense ht
-  | normalizer a reg, hr, o, h => by
+  | normalizer a reg, o, h => by
     simp only [eval] at h
     cases h
-    exact ⟨trivial, Normalizer.init_dense a reg (by simpa [RegNonneg] using hr)⟩
-  | laplacian a reg nz sq, hr, o, h => by
+    exact ⟨trivial, Normalizer.init_dense a reg⟩
+  | laplacian a reg nz sq, o, h => by
     simp only [eval] at h
     obtain ⟨l, hl, h⟩ := bind_eq_ok h
     have := pure_eq_ok h; subst this
-    exact ⟨(Laplacian.init_square hl).1, Laplacian.init_dense hl (by simpa [RegNonneg] using hr)⟩
-  | coneighbor a nz, _, o, h => by
+    exact ⟨(Laplacian.init_square hl).1, Laplacian.init_dense hl⟩
+  | coneighbor a nz, o, h => by
     simp only [eval] at h
     obtain ⟨c, hc, h⟩ := bind_eq_ok h
     have := pure_eq_ok h; subst this
     exact ⟨CoNeighbor.init_wf hc, CoNeighbor.init_dense hc⟩
-  | polynome a cs, _, o, h => by
+  | polynome a cs, o, h => by
     simp only [eval] at h
     obtain ⟨p, hp, h⟩ := bind_eq_ok h
     have := pure_eq_ok h; subst this
     obtain ⟨rfl, hne, hsq, hnn⟩ := Polynome.init_ok hp
     exact ⟨⟨hne, hsq, hnn⟩, Mat.Eqv.of_eq (powerSum_eq_polySum a cs 0)⟩
-  | neg e, hr, o, h => by
+  | neg e, o, h => by
     simp only [eval] at h
     obtain ⟨x, hx, h⟩ := bind_eq_ok h
-    obtain ⟨hw, he⟩ := denote_spec e (by simpa [RegNonneg] using hr) x hx
+    obtain ⟨hw, he⟩ := denote_spec e x hx
     obtain ⟨hw', he'⟩ := Op.neg_spec hw h
     exact ⟨hw', he'.trans (Mat.Eqv.neg he)⟩
-  | add e f, hr, o, h => by
+  | add e f, o, h => by
     simp only [eval] at h
     obtain ⟨x, hx, h⟩ := bind_eq_ok h
     obtain ⟨y, hy, h⟩ := bind_eq_ok h
-    have hr' : e.RegNonneg = true ∧ f.RegNonneg = true := by simpa [RegNonneg] using hr
-    obtain ⟨hwx, hex⟩ := denote_spec e hr'.1 x hx
-    obtain ⟨hwy, hey⟩ := denote_spec f hr'.2 y hy
+    obtain ⟨hwx, hex⟩ := denote_spec e x hx
+    obtain ⟨hwy, hey⟩ := denote_spec f y hy
     obtain ⟨hw', hrr, hcc, he'⟩ := Op.add_spec hwx hwy h
     exact ⟨hw', he'.trans (Mat.Eqv.add hex hey hrr hcc)⟩
-  | sub e f, hr, o, h => by
+  | sub e f, o, h => by
     simp only [eval] at h
     obtain ⟨x, hx, h⟩ := bind_eq_ok h
     obtain ⟨y, hy, h⟩ := bind_eq_ok h
-    have hr' : e.RegNonneg = true ∧ f.RegNonneg = true := by simpa [RegNonneg] using hr
-    obtain ⟨hwx, hex⟩ := denote_spec e hr'.1 x hx
-    obtain ⟨hwy, hey⟩ := denote_spec f hr'.2 y hy
+    obtain ⟨hwx, hex⟩ := denote_spec e x hx
+    obtain ⟨hwy, hey⟩ := denote_spec f y hy
     obtain ⟨hw', hrr, hcc, he'⟩ := Op.sub_spec hwx hwy h
     exact ⟨hw', he'.trans (Mat.Eqv.sub hex hey hrr hcc)⟩
-  | addCsr e a, hr, o, h => by
+  | addCsr e a, o, h => by
     simp only [eval] at h
     obtain ⟨x, hx, h⟩ := bind_eq_ok h
-    obtain ⟨hw, he⟩ := denote_spec e (by simpa [RegNonneg] using hr) x hx
+    obtain ⟨hw, he⟩ := denote_spec e x hx
     obtain ⟨hw', hrr, hcc, he'⟩ := Op.addCsr_spec hw h
     exact ⟨hw', he'.trans (Mat.Eqv.add he (Mat.Eqv.refl a) hrr hcc)⟩
-  | subCsr e a, hr, o, h => by
+  | subCsr e a, o, h => by
     simp only [eval] at h
     obtain ⟨x, hx, h⟩ := bind_eq_ok h
-    obtain ⟨hw, he⟩ := denote_spec e (by simpa [RegNonneg] using hr) x hx
+    obtain ⟨hw, he⟩ := denote_spec e x hx
     obtain ⟨hw', hrr, hcc, he'⟩ := Op.subCsr_spec hw h
     exact ⟨hw', he'.trans (Mat.Eqv.sub he (Mat.Eqv.refl a) hrr hcc)⟩
-  | mul e c, hr, o, h => by
+  | mul e c, o, h => by
     simp only [eval] at h
     obtain ⟨x, hx, h⟩ := bind_eq_ok h
-    obtain ⟨hw, he⟩ := denote_spec e (by simpa [RegNonneg] using hr) x hx
+    obtain ⟨hw, he⟩ := denote_spec e x hx
     obtain ⟨hw', he'⟩ := Op.mul_spec hw h
     exact ⟨hw', he'.trans (Mat.Eqv.smul c he)⟩
-  | transpose e, hr, o, h => by
+  | transpose e, o, h => by
     simp only [eval] at h
     obtain ⟨x, hx, h⟩ := bind_eq_ok h
-    obtain ⟨hw, he⟩ := denote_spec e (by simpa [RegNonneg] using hr) x hx
+    obtain ⟨hw, he⟩ := denote_spec e x hx
     obtain ⟨hw', he'⟩ := Op.transpose_spec hw h
     exact ⟨hw', he'.trans (Mat.Eqv.transpose he)⟩
-  | leftDot m e, hr, o, h => by
+  | leftDot m e, o, h => by
     simp only [eval] at h
     obtain ⟨x, hx, h⟩ := bind_eq_ok h
-    obtain ⟨hw, he⟩ := denote_spec e (by simpa [RegNonneg] using hr) x hx
+    obtain ⟨hw, he⟩ := denote_spec e x hx
     obtain ⟨hw', he'⟩ := Op.leftDot_spec hw h
     exact ⟨hw', he'.trans (Mat.Eqv.mul (Mat.Eqv.refl m) he)⟩
-  | rightDot e m, hr, o, h => by
+  | rightDot e m, o, h => by
     simp only [eval] at h
     obtain ⟨x, hx, h⟩ := bind_eq_ok h
-    obtain ⟨hw, he⟩ := denote_spec e (by simpa [RegNonneg] using hr) x hx
+    obtain ⟨hw, he⟩ := denote_spec e x hx
     obtain ⟨hw', he'⟩ := Op.rightDot_spec hw h
     exact ⟨hw', he'.trans (Mat.Eqv.mul he (Mat.Eqv.refl m))⟩
-  | astype e, hr, o, h => by
+  | astype e, o, h => by
     simp only [eval] at h
     obtain ⟨x, hx, h⟩ := bind_eq_ok h
-    obtain ⟨hw, he⟩ := denote_spec e (by simpa [RegNonneg] using hr) x hx
+    obtain ⟨hw, he⟩ := denote_spec e x hx
     obtain ⟨hw', he'⟩ := Op.astype_spec hw h
     exact ⟨hw', he'.trans he⟩
-  | d2u e, hr, o, h => by
+  | d2u e, o, h => by
     simp only [eval] at h
     obtain ⟨x, hx, h⟩ := bind_eq_ok h
-    obtain ⟨hw, he⟩ := denote_spec e (by simpa [RegNonneg] using hr) x hx
+    obtain ⟨hw, he⟩ := denote_spec e x hx
     obtain ⟨hw', hsq, he'⟩ := Op.d2u_spec hw h
     exact ⟨hw', he'.trans (Mat.Eqv.add he (Mat.Eqv.transpose he) (by simpa using hsq) (by simpa using hsq.symm))⟩
-  | b2d e, hr, o, h => by
+  | b2d e, o, h => by
     simp only [eval] at h
     obtain ⟨x, hx, h⟩ := bind_eq_ok h
-    obtain ⟨hw, he⟩ := denote_spec e (by simpa [RegNonneg] using hr) x hx
+    obtain ⟨hw, he⟩ := denote_spec e x hx
     obtain ⟨hw', he'⟩ := Op.b2d_spec hw h
     exact ⟨hw', he'.trans (Mat.Eqv.block he (Mat.Eqv.zero he.nCol he.nRow))⟩
-  | b2u e, hr, o, h => by
+  | b2u e, o, h => by
     simp only [eval] at h
     obtain ⟨x, hx, h⟩ := bind_eq_ok h
-    obtain ⟨hw, he⟩ := denote_spec e (by simpa [RegNonneg] using hr) x hx
+    obtain ⟨hw, he⟩ := denote_spec e x hx
     obtain ⟨hw', he'⟩ := Op.b2u_spec hw h
     exact ⟨hw', he'.trans (Mat.Eqv.block he (Mat.Eqv.transpose he))⟩
-  | normalize e, hr, o, h => by
+  | normalize e, o, h => by
     simp only [eval] at h
     obtain ⟨x, hx, h⟩ := bind_eq_ok h
-    obtain ⟨hw, he⟩ := denote_spec e (by simpa [RegNonneg] using hr) x hx
+    obtain ⟨hw, he⟩ := denote_spec e x hx
     obtain ⟨hw', he'⟩ := Op.normalize_spec hw h
     exact ⟨hw', he'.trans (Mat.Eqv.rowNormalized he)⟩
 
